@@ -235,7 +235,7 @@ def main(argv=None):
         json.dump(b, open(os.path.join(VERIF, "baseline_obligations.json"), "w"), indent=0, sort_keys=True)
 
     # ---------------------------------------------------------------- evidence
-    if not a.only:
+    if not a.only and re.match(r"C\d\d$", a.prop):
         units = []
         trusted = set()
         for i in idxs:
